@@ -219,6 +219,19 @@ def configs(tier):
                     out.append({'kind': 'resample', 'dom': dom, 'ran': ran, 'scheme': sc,
                                 'dtype': dt})
 
+    # ---- history: one callable object, every sequence of calls of length 2 (thorough: 3)
+    depth = 3 if th else 2
+    for variant in HIST_VARIANTS:
+        for holder in HIST_HOLDERS:
+            for first in sorted(_hist_menu(holder, variant)[1]):
+                out.append({'kind': 'history', 'holder': holder, 'variant': variant,
+                            'first': first, 'depth': depth})
+    for variant in HIST_INTERP:
+        for d in (1, 2):
+            for first in ('farr', 'ipts', 'mesh', 'mesh_out', 'pt'):
+                out.append({'kind': 'history', 'holder': 'interp', 'variant': variant, 'd': d,
+                            'first': first, 'depth': depth})
+
     # ---- deform
     sp1 = [['ud4'], ['nu3'], ['udb5'], ['ud2']]
     sp2 = [['ud4', 'ud2'], ['nu3', 'ud4']]
@@ -1217,9 +1230,298 @@ def _run_deform(cfg):
 
 
 # ------------------------------------------------------------------------------------------
+# kind: history -- one callable object used for several successive calls
+#
+# The object behind ``odl.util.vectorize`` creates its numpy.vectorize lazily and keeps it: it
+# is the one piece of shared mutable state in the sampling path.  The object returned by
+# ``sampling_function`` and the interpolator closures are used repeatedly as well.  Oracle
+# (differential, confluence): the result of a call must not depend on the calls made before,
+# i.e. it equals -- values, shape and dtype -- the result of the same call on a FRESH object;
+# plus the plain scalar reference values where numpy.vectorize's own type inference (output
+# type of the first point of *that* call) does not narrow them.
+
+_RANK = {'b': 0, 'i': 1, 'u': 1, 'f': 2, 'c': 3}
+
+
+def _hist_funcs():
+    """name -> (scalar function of one point, ndim, complex?).  Return types are NOT uniform."""
+    def ramp(p):
+        return p[0] if p[0] > 0 else 0                 # float | int literal
+
+    def rampneg(p):
+        return -p[0] if p[0] < 0 else 0                # float first on an increasing grid
+
+    def boolmix(p):
+        return (p[0] > -1) if p[0] < 0 else p[0]       # bool | float
+
+    def cplxmix(p):
+        return 0.5 if p[0] < 0 else 1j * p[0]          # float | complex
+
+    def uniform(p):
+        return 2 * p[0] + 0.5                          # control: always float
+
+    def dist(p):                                       # the docstring example of vectorize
+        return p[0] + p[1] if p[0] < p[1] else p[0] - p[1]
+    return {'ramp': (ramp, 1, False), 'rampneg': (rampneg, 1, False),
+            'boolmix': (boolmix, 1, False), 'cplxmix': (cplxmix, 1, True),
+            'uniform': (uniform, 1, False), 'dist': (dist, 2, False)}
+
+
+HIST_VARIANTS = ['ramp', 'rampneg', 'boolmix', 'cplxmix', 'uniform', 'dist']
+HIST_HOLDERS = ['wrapper', 'sampled_vec', 'sampled_plain', 'sampled_list']
+HIST_INTERP = ['nearest', 'linear', 'mixed']
+
+
+def _hist_spaces(d, cplx):
+    dt = complex if cplx else float
+    if d == 1:
+        return {'L': odl.uniform_discr(-2, 0, 4, dtype=dt),      # nodes -1.75 ... -0.25
+                'R': odl.uniform_discr(0, 2, 4, dtype=dt),       # nodes  0.25 ...  1.75
+                'B': odl.uniform_discr(-2, 2, 4, dtype=dt)}      # nodes -1.5, -0.5, 0.5, 1.5
+    return {'L': odl.uniform_discr([0, 0], [1, 1], (3, 2), dtype=dt),
+            'R': odl.uniform_discr([-1, -1], [1, 1], (2, 2), dtype=dt),
+            'B': odl.uniform_discr([-2, 0], [2, 4], (4, 2), dtype=dt)}
+
+
+def _hist_menu(holder, variant):
+    """(make() -> fresh object, menu: name -> (call(obj) -> array, points, cast dtype))."""
+    sf, d, cplx = _hist_funcs()[variant]
+    sdt = np.dtype(complex if cplx else float)
+    sp = _hist_spaces(d, cplx)
+    dom = odl.IntervalProd([-2.0] * d, [4.0] * d)
+
+    def gridpts(space):
+        return [list(map(float, q)) for q in space.points()]
+
+    if d == 1:
+        pts = {'pt_neg': [[-0.5]], 'pt_pos': [[0.75]], 'iarr': [[-2], [1], [3]],
+               'farr': [[-1.5], [0.25], [1.5]]}
+        arg = {'pt_neg': -0.5, 'pt_pos': 0.75, 'iarr': np.array([-2, 1, 3]),
+               'farr': np.array([[-1.5, 0.25, 1.5]])}
+        sarg = dict(arg, iarr=np.array([[-2, 1, 3]]))
+    else:
+        pts = {'pt_neg': [[0, 1]], 'pt_pos': [[0.75, 0.5]], 'iarr': [[0, 1], [-2, 4]],
+               'farr': [[0.25, 0.5], [1.5, -0.5]]}
+        arg = {'pt_neg': [0, 1], 'pt_pos': [0.75, 0.5], 'iarr': np.array([[0, -2], [1, 4]]),
+               'farr': np.array([[0.25, 1.5], [0.5, -0.5]])}
+        sarg = dict(arg, pt_neg=np.array([0, 1]), pt_pos=np.array([0.75, 0.5]))
+    menu = {}
+    if holder == 'wrapper':
+        def make():
+            return vectorize(sf)
+        for k in ('pt_neg', 'pt_pos', 'iarr', 'farr'):
+            menu[k] = ((lambda w, k=k: np.asarray(w(arg[k]))), pts[k], None)
+        for k, space in sp.items():
+            menu['el_' + k] = ((lambda w, space=space: space.element(w).asarray()),
+                               gridpts(space), sdt)
+
+            def outcall(w, space=space):
+                o = np.empty(space.shape, dtype=sdt)
+                DU.sampling_function(w, space.domain, out_dtype=sdt)(space.meshgrid, out=o)
+                return o
+            if k != 'L':
+                menu['out_' + k] = (outcall, gridpts(space), sdt)
+        return make, menu
+
+    # the object returned by sampling_function, used repeatedly with different input kinds
+    def make():
+        if holder == 'sampled_vec':
+            base = vectorize(sf)
+        elif holder == 'sampled_plain':
+            # natively vectorised version of the same function
+            def base(x):
+                x = [np.asarray(xi) for xi in x]
+                shape = np.broadcast(*x).shape
+                flat = [np.broadcast_to(xi, shape).ravel() for xi in x]
+                vals = [sf([fl[n] for fl in flat]) for n in range(int(np.prod(shape)))]
+                return np.array(vals, dtype=sdt).reshape(shape)
+        else:
+            base = [vectorize(sf), 2.0]
+        if holder == 'sampled_list':
+            return DU.sampling_function(base, dom, out_dtype=(sdt, (2,)))
+        return DU.sampling_function(base, dom, out_dtype=sdt)
+
+    lst = holder == 'sampled_list'
+
+    def wrap(call):
+        return (lambda F: np.asarray(call(F)))
+    for k in ('pt_neg', 'pt_pos', 'iarr', 'farr'):
+        menu[k] = (wrap(lambda F, k=k: F(sarg[k])), pts[k], sdt)
+    for k, space in sp.items():
+        menu['mesh_' + k] = (wrap(lambda F, space=space: F(space.meshgrid)),
+                             gridpts(space), sdt)
+
+        def outcall(F, space=space):
+            o = np.empty(((2,) if lst else ()) + space.shape, dtype=sdt)
+            F(space.meshgrid, out=o)
+            return o
+        if k != 'L':
+            menu['out_' + k] = (outcall, gridpts(space), sdt)
+    return make, menu
+
+
+def _bits_equal(a, b):
+    a, b = np.asarray(a), np.asarray(b)
+    return a.dtype == b.dtype and a.shape == b.shape and a.tobytes() == b.tobytes()
+
+
+def _run_history(cfg):
+    rec = _Rec()
+    holder, variant, first, depth = cfg['holder'], cfg['variant'], cfg['first'], cfg['depth']
+    if holder == 'interp':
+        return _run_history_interp(cfg, rec)
+    sf, d, cplx = _hist_funcs()[variant]
+    make, menu = _hist_menu(holder, variant)
+    site = {'wrapper': 'vectorize[history]'}.get(holder, 'sampling_function[history,%s]'
+                                                  % holder)
+    where = 'function=%s holder=%s' % (variant, holder)
+    names = sorted(menu)
+
+    # each call alone, on a fresh object; and against the plain scalar reference
+    fresh = {}
+    for nm in names:
+        call, pts, cast = menu[nm]
+        vals = [sf(q) for q in pts]
+        ranks = [_RANK[np.asarray(v).dtype.kind] for v in vals]
+        narrowed = holder != 'sampled_plain' and ranks[0] < max(ranks)
+        try:
+            fresh[nm] = np.array(call(make()))
+        except Exception as ex:
+            if narrowed:
+                # numpy.vectorize inferred a real output type from the first point and cannot
+                # store the complex values of the later ones: numpy's documented behaviour,
+                # the call is left out of the menu of this state
+                rec.skipped += int(nm == first)
+                continue
+            rec.viol(site, 'fresh_%s_%s' % (nm.split('_')[0], _exc(ex)),
+                     '%s call %s on a fresh object: %r' % (where, nm, ex))
+            continue
+        if nm != first:
+            continue                      # the reference is compared once per menu entry
+        if narrowed:
+            # numpy.vectorize takes the output type of a call from its first point: documented
+            # numpy behaviour that odl.util.vectorize passes on -- counted, not judged
+            rec.skipped += 1
+            continue
+        want = np.array(vals)
+        if cast is not None:
+            want = want.astype(cast)
+        got = fresh[nm]
+        if holder == 'sampled_list':
+            want = np.stack([want.ravel(), np.full(want.size, 2.0, dtype=want.dtype)])
+            got = got.reshape(2, -1)
+        rec.evals += 1
+        if got.size != want.size or not np.array_equal(got.reshape(want.shape), want):
+            rec.viol(site, 'values_differ', '%s call %s points %s: expected %s, got %s'
+                     % (where, nm, pts, _short(want), _short(got)))
+    if first not in fresh:
+        return rec.result()
+
+    for tail in itertools.product(names, repeat=depth - 1):
+        seq = (first,) + tail
+        obj = make()
+        for k, nm in enumerate(seq):
+            if nm not in fresh:
+                break
+            try:
+                got = menu[nm][0](obj)
+            except Exception as ex:
+                rec.viol(site, 'later_call_' + _exc(ex),
+                         '%s sequence %s: call %d raises %r (alone it works)'
+                         % (where, list(seq), k, ex))
+                break
+            rec.evals += 1
+            if not _bits_equal(got, fresh[nm]):
+                rec.viol(site, 'result_depends_on_earlier_calls',
+                         '%s: after the calls %s on the same object, call %s gives %s (%s); '
+                         'on a fresh object it gives %s (%s)'
+                         % (where, list(seq[:k]), nm, _short(got), np.asarray(got).dtype,
+                            _short(fresh[nm]), fresh[nm].dtype))
+                break
+        rec.sigs.add('history|%s|%s|%s' % (holder, variant, 'c' if cplx else 'r'))
+    return rec.result()
+
+
+def _run_history_interp(cfg, rec):
+    d = cfg['d']
+    cvecs = (np.array([0.0, 1.0, 3.0]), np.array([0.0, 2.0]))[:d]
+    interp = {'nearest': 'nearest', 'linear': 'linear',
+              'mixed': ['nearest', 'linear'][:d] if d > 1 else ['linear']}[cfg['variant']]
+    g = _generic(tuple(len(c) for c in cvecs), 'f64')
+    site = 'interpolators[history]'
+    where = 'scheme=%s ndim=%d' % (cfg['variant'], d)
+
+    def make():
+        if cfg['variant'] == 'nearest':
+            return DU.nearest_interpolator(g.copy(), cvecs)
+        if cfg['variant'] == 'linear':
+            return DU.linear_interpolator(g.copy(), cvecs)
+        return DU.per_axis_interpolator(g.copy(), cvecs, interp)
+
+    if d == 1:
+        args = {'pt': lambda: 0.5, 'ipts': lambda: np.array([0, 1, 3]),
+                'farr': lambda: np.array([2.5, -0.25, 0.5]),
+                'mesh': lambda: sparse_meshgrid(np.array([0.25, 2.0, 3.5]))}
+        oshape = (3,)
+    else:
+        args = {'pt': lambda: [0.5, 1.0], 'ipts': lambda: np.array([[0, 3, 1], [2, 0, 2]]),
+                'farr': lambda: np.array([[2.5, -0.25, 0.5], [0.5, 2.5, 1.0]]),
+                'mesh': lambda: sparse_meshgrid(np.array([0.25, 2.0, 3.5]),
+                                                np.array([1.0, -0.5]))}
+        oshape = (3, 2)
+    menu = {}
+    for k in args:
+        def call(I, k=k):
+            x = args[k]()
+            keep = [np.array(xi, copy=True) for xi in (x if isinstance(x, tuple) else [x])]
+            r = np.asarray(I(x))
+            now = x if isinstance(x, tuple) else [x]
+            if not all(np.array_equal(np.asarray(a), b) for a, b in zip(now, keep)):
+                rec.viol(site, 'input_modified', '%s input kind %s' % (where, k))
+            return r
+        menu[k] = call
+
+    def outcall(I):
+        o = np.empty(oshape)
+        I(args['mesh'](), out=o)
+        return o
+    menu['mesh_out'] = outcall
+    names = sorted(menu)
+    fresh = {}
+    for nm in names:
+        try:
+            fresh[nm] = np.array(menu[nm](make()))
+        except Exception as ex:
+            rec.viol(site, 'fresh_%s_%s' % (nm, _exc(ex)), '%s: %r' % (where, ex))
+    first = cfg['first']
+    if first not in fresh:
+        return rec.result()
+    for tail in itertools.product(names, repeat=cfg['depth'] - 1):
+        seq = (first,) + tail
+        I = make()
+        for k, nm in enumerate(seq):
+            if nm not in fresh:
+                break
+            try:
+                got = menu[nm](I)
+            except Exception as ex:
+                rec.viol(site, 'later_call_' + _exc(ex), '%s sequence %s: %r'
+                         % (where, list(seq), ex))
+                break
+            rec.evals += 1
+            if not _bits_equal(got, fresh[nm]):
+                rec.viol(site, 'result_depends_on_earlier_calls',
+                         '%s: after %s call %s gives %s, fresh %s'
+                         % (where, list(seq[:k]), nm, _short(got), _short(fresh[nm])))
+                break
+        rec.sigs.add('history|interp|%s|%d' % (cfg['variant'], d))
+    return rec.result()
+
+
+# ------------------------------------------------------------------------------------------
 
 _RUN = {'interp': _run_interp, 'sample': _run_sample, 'sfunc': _run_sfunc,
-        'resample': _run_resample, 'deform': _run_deform}
+        'resample': _run_resample, 'deform': _run_deform, 'history': _run_history}
 
 
 def run(cfg):
@@ -1267,8 +1569,11 @@ def summarize(results):
 def meta(tier):
     th = tier == 'thorough'
     return {
-        'rule': 'one state = one configuration of one of five kinds (sample, sfunc, interp, '
-                'resample, deform).  "For all value arrays" is decided by linearity: the full '
+        'rule': 'one state = one configuration of one of six kinds (sample, sfunc, interp, '
+                'resample, deform, history).  history: one callable object (vectorize wrapper, '
+                'sampling_function result, interpolator) x first call x every continuation up '
+                'to the depth; each call must equal bit for bit the same call on a fresh '
+                'object.  "For all value arrays" is decided by linearity: the full '
                 'interpolation matrix (one basis array per node, plus i*e_k for complex) is '
                 'compared with reference weights computed by bisection in exact rational '
                 'arithmetic, on the tensor product of per-axis point alphabets; "for all '
@@ -1286,6 +1591,10 @@ def meta(tier):
                        'a string and with every tuple in {nearest, linear}^d',
             'conventions': 'sparse mesh, dense mesh, mesh with single-point axes (every subset '
                            'of axes), point array (d,N), nested list, every single point, out=',
+            'history': 'functions with non-uniform return type (int|float, bool|float, '
+                       'float|complex, ints for integer points) and a float-only control; '
+                       'menu: single points, integer and float point arrays, element() / mesh '
+                       'on three spaces, out=; all sequences of length %d' % (3 if th else 2),
             'out_layouts': 'fresh C-contiguous, Fortran-ordered (ndim >= 2), every second entry '
                            'of the last axis of a larger buffer (the gaps must stay untouched); '
                            'linear_deform also with out = the data array of the template',
